@@ -13,6 +13,7 @@ import (
 	"sort"
 	"strings"
 	"sync"
+	"sync/atomic"
 	"testing"
 	"time"
 	_ "time/tzdata"
@@ -150,7 +151,12 @@ func compare(c config, spec string) (out outcome) {
 	if err != nil {
 		return outcome{kind: "rejected", msg: fmt.Sprintf("Parse(%q) with %s: error %q, but the documented grammar gives it a meaning", spec, c.Name, err)}
 	}
-	want := ref.Sched
+	return matchSched(sched, ref.Sched, spec, c.Name)
+}
+
+// matchSched compares a schedule kit returned with the documented meaning.
+func matchSched(sched cron.Schedule, want cronref.Schedule, spec, cname string) outcome {
+	c := struct{ Name string }{cname}
 	if want.IsEvery {
 		cd, ok := sched.(cron.ConstantDelaySchedule)
 		if !ok {
@@ -383,6 +389,25 @@ func run(r *enumx.Run, replay *enumx.ReplayCase) {
 		if err := json.Unmarshal(replay.Case, &c); err != nil {
 			panic(err)
 		}
+		if strings.Contains(c.Spec, seqSep) {
+			e := newSeqEnv()
+			var its []seqItem
+			for _, sp := range strings.Split(c.Spec, seqSep) {
+				its = append(its, e.item(sp))
+			}
+			var third *seqItem
+			if len(its) > 2 {
+				third = &its[2]
+			}
+			done := false
+			e.eval(&its[0], &its[1], third, func(kind, msg string, seq []string) {
+				if !done {
+					done = true
+					r.Violation(replay.Key, msg, c)
+				}
+			})
+			return
+		}
 		o := compare(cfgs[c.Config], c.Spec)
 		if !o.ok {
 			r.Violation(replay.Key, o.msg, c)
@@ -579,6 +604,21 @@ func run(r *enumx.Run, replay *enumx.ReplayCase) {
 		r.Space("refusal classes: wrong field count (min-2..max+2), value below minimum / above maximum, inverted range, zero step, non-numeric, unknown name, unknown descriptor, unknown zone - each must return an error")
 	}
 
+	// 5b. names, garbage and digits in every syntactic position of every field,
+	// of descriptors and of the zone prefix; the reference grammar decides (names
+	// are legal only as single values / range ends of the month and dow fields)
+	{
+		jobs := positionJobs(cfgs)
+		evalJobs(jobs)
+		r.Space(fmt.Sprintf("names (jan..dec, sun..sat in three case styles), 3-letter garbage and digits in every syntactic position (value, range start/end, step, step of a range, list item, step inside a list item) of every field, as descriptor, as @every argument, after a descriptor and as zone name: %d cases, verdict taken from the reference grammar", len(jobs)))
+	}
+
+	// 5c. parse sequences: a later Parse must not change an earlier result
+	{
+		n := sequences(r, ag)
+		r.Space(fmt.Sprintf("parse sequences: every ordered pair (A, B) and every triple (A, B, A') with A' sharing A's body, over an alphabet of %d expressions (7 descriptors x {no prefix, TZ=/CRON_TZ= over 3 zones}, 3 ordinary expressions x 3 prefixes, 2 @every): after each later Parse the first schedule still has the documented field sets and location, is a distinct object, and answers Next at 3 instants as before and as the reference does: %d sequences", len(seqAlphabet()), n))
+	}
+
 	// 6. forms the implementation accepts but the documentation does not define:
 	// fed for the record only, never judged.
 	{
@@ -770,4 +810,250 @@ func refusalJobs(cfgs []config) []job {
 		}
 	}
 	return jobs
+}
+
+// ---- names / digits in every position ---------------------------------------------
+
+func positionJobs(cfgs []config) []job {
+	var jobs []job
+	var vals []string
+	for _, n := range append(append([]string{}, cronref.MonthNames...), cronref.DowNames...) {
+		vals = append(vals, n, strings.ToLower(n), title(n))
+	}
+	vals = append(vals, "abc", "xyz", "ja", "janu", "j4n", "0", "1", "7", "12")
+	for f := 0; f < 6; f++ {
+		lo, hi := cronref.Range(f)
+		for _, x := range vals {
+			forms := [][2]string{
+				{"X", x}, {"X-X", x + "-" + x}, {"lo-X", fmt.Sprintf("%d-%s", lo, x)}, {"X-hi", fmt.Sprintf("%s-%d", x, hi)},
+				{"*/X", "*/" + x}, {"lo/X", fmt.Sprintf("%d/%s", lo, x)}, {"X/2", x + "/2"}, {"X/X", x + "/" + x},
+				{"lo-hi/X", fmt.Sprintf("%d-%d/%s", lo, hi, x)}, {"X-X/X", x + "-" + x + "/" + x},
+				{"lo,X", fmt.Sprintf("%d,%s", lo, x)}, {"X,lo", fmt.Sprintf("%s,%d", x, lo)}, {"lo,*/X", fmt.Sprintf("%d,*/%s", lo, x)}, {"lo,lo-X", fmt.Sprintf("%d,%d-%s", lo, lo, x)},
+			}
+			for _, fm := range forms {
+				for ci, c := range cfgs {
+					if c.Lay.Descriptors {
+						continue
+					}
+					p, _ := c.present()
+					if !p[f] {
+						continue
+					}
+					for _, base := range [][6]string{baseStars, baseDistinct} {
+						tok := base
+						tok[f] = fm[1]
+						jobs = append(jobs, job{sub: "position", field: f, form: fm[0], cfg: ci, spec: c.assemble(tok, false)})
+					}
+				}
+			}
+		}
+	}
+	for ci, c := range cfgs {
+		for _, x := range vals {
+			for _, d := range []string{"@" + x, "@every " + x, "@daily " + x, "@" + x + " daily", "@every 1h" + x, "@hourly/" + x} {
+				jobs = append(jobs, job{sub: "position", field: -1, form: "descriptor", cfg: ci, spec: d})
+			}
+			jobs = append(jobs, job{sub: "position", field: -1, form: "zone", cfg: ci, spec: "TZ=" + x + " " + c.assemble(baseStars, false)})
+			jobs = append(jobs, job{sub: "position", field: -1, form: "zone", cfg: ci, spec: "CRON_TZ=" + x + " " + c.assemble(baseDistinct, false)})
+		}
+	}
+	return jobs
+}
+
+// ---- parse sequences -----------------------------------------------------------------
+
+type seqItem struct {
+	spec string
+	body string // the expression without the zone prefix
+	ref  cronref.Schedule
+	next [3]time.Time // the reference's Next at seqInstants
+}
+
+var seqZones = []string{"Asia/Tokyo", "Asia/Kolkata", "America/New_York"}
+
+func seqAlphabet() []string {
+	var out []string
+	pre := []string{""}
+	for _, z := range seqZones {
+		pre = append(pre, "TZ="+z+" ", "CRON_TZ="+z+" ")
+	}
+	for _, d := range []string{"@yearly", "@annually", "@monthly", "@weekly", "@daily", "@midnight", "@hourly"} {
+		for _, p := range pre {
+			out = append(out, p+d)
+		}
+	}
+	for _, b := range []string{"0 0 * * *", "*/15 9-17 * * MON-FRI", "30 4 1 1 *"} {
+		for _, p := range []string{"", "TZ=Asia/Tokyo ", "CRON_TZ=Asia/Kolkata "} {
+			out = append(out, p+b)
+		}
+	}
+	return append(out, "@every 1h", "@every 90s")
+}
+
+var seqInstants = [3]time.Time{
+	time.Date(2021, 3, 14, 6, 59, 30, 0, time.UTC),
+	time.Date(2024, 2, 29, 12, 0, 0, 0, time.UTC),
+	time.Date(2019, 12, 31, 23, 59, 59, 500000000, time.UTC),
+}
+
+// seqEnv: what evaluating sequences needs.
+type seqEnv struct {
+	cfg    config
+	zones  map[string]*cronref.Zone
+	parser cron.Parser
+}
+
+func newSeqEnv() *seqEnv {
+	cfg := configs()[1] // standard + descriptors
+	if cfg.Name != "standard+descriptors" {
+		panic(cfg.Name)
+	}
+	from, to := time.Date(2004, 12, 1, 0, 0, 0, 0, time.UTC).Unix(), time.Date(2037, 2, 1, 0, 0, 0, 0, time.UTC).Unix()
+	zones := map[string]*cronref.Zone{}
+	for _, n := range append([]string{"UTC"}, seqZones...) {
+		loc, err := time.LoadLocation(n)
+		if err != nil {
+			panic(err)
+		}
+		z, err := cronref.ScanZone(n, loc, from, to, true)
+		if err != nil {
+			panic(err)
+		}
+		zones[n] = z
+	}
+	return &seqEnv{cfg: cfg, zones: zones, parser: cron.NewParser(cfg.Opt)}
+}
+
+func (e *seqEnv) item(sp string) seqItem {
+	res := cronref.Parse(sp, e.cfg.Lay)
+	if res.Verdict != cronref.Accept || res.Sched.DomStar == cronref.Unspecified || res.Sched.DowStar == cronref.Unspecified {
+		panic("sequence alphabet: " + sp)
+	}
+	it := seqItem{spec: sp, body: sp, ref: res.Sched}
+	if i := strings.Index(sp, " "); i > 0 && strings.Contains(sp[:i], "=") {
+		it.body = sp[i+1:]
+	}
+	if strings.HasPrefix(it.body, "@every") {
+		it.body = "@every"
+	} else if !strings.HasPrefix(it.body, "@") {
+		it.body = "fields"
+	}
+	for k, t := range seqInstants {
+		if res.Sched.IsEvery {
+			it.next[k] = cronref.EveryNext(res.Sched.Every, t)
+			continue
+		}
+		zn := res.Sched.Zone
+		if zn == "" {
+			zn = "UTC" // no zone: interpreted in the location of t, and t is given in UTC
+		}
+		sch := res.Sched
+		sc := cronref.Scanner{Z: e.zones[zn], S: &sch, Fast: true}
+		a := sc.Next(t)
+		if !a.Found {
+			panic("sequence alphabet: no next for " + sp)
+		}
+		it.next[k] = time.Unix(a.Unix, 0)
+	}
+	return it
+}
+
+// check: the schedule obtained for it still means what it should.
+func (e *seqEnv) check(sched cron.Schedule, it *seqItem, when string, seq []string) (string, string) {
+	if o := matchSched(sched, it.ref, it.spec, e.cfg.Name); !o.ok {
+		return "fields-" + o.kind, fmt.Sprintf("sequence %q: the schedule returned for %q %s: %s", seq, it.spec, when, o.msg)
+	}
+	for k, t := range seqInstants {
+		if got := sched.Next(t); !got.Equal(it.next[k]) {
+			return "next", fmt.Sprintf("sequence %q: the schedule returned for %q %s answers Next(%s) = %s, documented %s", seq, it.spec, when, t.Format(time.RFC3339Nano), got.Format(time.RFC3339), it.next[k].UTC().Format(time.RFC3339))
+		}
+	}
+	return "", ""
+}
+
+// eval runs Parse(A), Parse(B)[, Parse(C)] and reports every departure.
+func (e *seqEnv) eval(A, B, C *seqItem, report func(kind, msg string, seq []string)) {
+	seq := []string{A.spec, B.spec}
+	if C != nil {
+		seq = append(seq, C.spec)
+	}
+	aliased := func(a, b cron.Schedule) bool {
+		pa, oka := a.(*cron.SpecSchedule)
+		pb, okb := b.(*cron.SpecSchedule)
+		return oka && okb && pa == pb
+	}
+	sA, err := e.parser.Parse(A.spec)
+	if err != nil {
+		report("rejected", fmt.Sprintf("sequence %q: Parse(%q): %v", seq, A.spec, err), seq)
+		return
+	}
+	if k, m := e.check(sA, A, "right after its own Parse", seq); k != "" {
+		report("first-"+k, m, seq)
+		return
+	}
+	sB, err := e.parser.Parse(B.spec)
+	if err != nil {
+		report("rejected", fmt.Sprintf("sequence %q: Parse(%q): %v", seq, B.spec, err), seq)
+		return
+	}
+	if aliased(sA, sB) {
+		report("aliased", fmt.Sprintf("sequence %q: two separate Parse calls returned the same *SpecSchedule object", seq), seq)
+	}
+	if k, m := e.check(sA, A, fmt.Sprintf("was changed by the later Parse(%q)", B.spec), seq); k != "" {
+		report("changed-"+k, m, seq)
+	}
+	if k, m := e.check(sB, B, "right after its own Parse", seq); k != "" {
+		report("later-"+k, m, seq)
+	}
+	if C == nil {
+		return
+	}
+	sC, err := e.parser.Parse(C.spec)
+	if err != nil {
+		report("rejected", fmt.Sprintf("sequence %q: Parse(%q): %v", seq, C.spec, err), seq)
+		return
+	}
+	if aliased(sA, sC) || aliased(sB, sC) {
+		report("aliased", fmt.Sprintf("sequence %q: two separate Parse calls returned the same *SpecSchedule object", seq), seq)
+	}
+	if k, m := e.check(sA, A, fmt.Sprintf("was changed by the later Parse(%q)", C.spec), seq); k != "" {
+		report("changed-"+k, m, seq)
+	}
+	if k, m := e.check(sB, B, fmt.Sprintf("was changed by the later Parse(%q)", C.spec), seq); k != "" {
+		report("changed-"+k, m, seq)
+	}
+	if k, m := e.check(sC, C, "right after its own Parse", seq); k != "" {
+		report("later-"+k, m, seq)
+	}
+}
+
+const seqSep = " ; "
+
+func sequences(r *enumx.Run, ag *agg) int {
+	e := newSeqEnv()
+	var items []seqItem
+	for _, sp := range seqAlphabet() {
+		items = append(items, e.item(sp))
+	}
+	var total atomic.Int64
+	r.Parallel(len(items), func(ai int) {
+		A := &items[ai]
+		var n int64
+		report := func(kind, msg string, seq []string) {
+			ag.add(fmt.Sprintf("parser;sequence;field=any;form=%s;%s", A.body, kind), rcase{Config: 1, Spec: strings.Join(seq, seqSep)}, msg)
+		}
+		for bi := range items {
+			n++
+			e.eval(A, &items[bi], nil, report)
+			for ci := range items {
+				if items[ci].body == A.body {
+					n++
+					e.eval(A, &items[bi], &items[ci], report)
+				}
+			}
+		}
+		r.Count(n, n)
+		total.Add(n)
+	})
+	return int(total.Load())
 }
